@@ -483,22 +483,80 @@ example : isEpubEncrypted K ⟨["META-INF/rights.xml".toList], none⟩ = true :=
 
 /-! ## 8. PDF: the decision built on pypdf's `decrypt('')` -/
 
-def PdfOk (C : Consts) : Bool := C.pdfPassword == [] && C.pdfNotDecrypted == 0 && C.pdfOnException == 0
+/-- every answer `reader.decrypt(…)` can give: it raised (`none`) or one of pypdf's `PasswordType` members
+    (the inventory is read from the installed pypdf on every run) -/
+def PdfOutcome (C : Consts) (d : Option Nat) : Prop := d = none ∨ ∃ p ∈ C.pdfPasswordTypes, d = some p.2
+
+/-- decidable: the password tried is the empty one; the value assigned when `decrypt` raises makes the test true;
+    pypdf's outcome inventory names NOT_DECRYPTED as 0 and gives every other outcome another value; the translated
+    test — whatever its spelling in the source — agrees with "`== 0`" on every outcome of the inventory -/
+def PdfOk (C : Consts) : Bool :=
+  C.pdfPassword == [] && C.pdfExcRejects
+    && C.pdfPasswordTypes.contains ("NOT_DECRYPTED", 0)
+    && C.pdfPasswordTypes.all (fun p => (p.1 == "NOT_DECRYPTED") == (p.2 == 0))
+    && C.pdfPasswordTypes.all (fun p => C.pdfTest.eval p.2 == (p.2 == 0))
 
 theorem gen_pdf_ok : PdfOk K = true := by decide
 
 /-- `read_pdf` raises the encrypted error iff the reader says "encrypted" and trying the EMPTY
-    password does not open it (returns NOT_DECRYPTED = 0, or raises).  In particular a PDF that the
-    empty user password opens (result 1 = user, 2 = owner) is not rejected. -/
-theorem C08_pdf {C : Consts} (hC : PdfOk C = true) (isEnc : Bool) (d : Option Nat) :
+    password does not open it (returns NOT_DECRYPTED = 0, or raises) — for every answer `decrypt` can give.
+    In particular a PDF that the empty password opens (as user password or as owner password) is not rejected. -/
+theorem C08_pdf {C : Consts} (hC : PdfOk C = true) (isEnc : Bool) (d : Option Nat) (hd : PdfOutcome C d) :
     pdfRejects C isEnc d = true ↔ isEnc = true ∧ (d = none ∨ d = some 0) := by
-  simp only [PdfOk, Bool.and_eq_true, beq_iff_eq] at hC
-  simp only [pdfRejects, hC.1.2, hC.2, Bool.and_eq_true, beq_iff_eq]
-  cases d with
-  | none => simp
-  | some n => simp
+  simp only [PdfOk, Bool.and_eq_true] at hC
+  rcases hd with rfl | ⟨p, hp, rfl⟩
+  · simp [pdfRejects, hC.1.1.1.2]
+  · have := beq_iff_eq.mp (List.all_eq_true.mp hC.2 p hp)
+    simp [pdfRejects, this]
 
-example : pdfRejects K true (some 1) = false ∧ pdfRejects K true (some 0) = true ∧ pdfRejects K false none = false := by decide
+/-- over pypdf's own outcome inventory: of all the ways `decrypt('')` can answer, exactly NOT_DECRYPTED is
+    rejected — a file the empty password opens as the USER *or* as the OWNER password (pypdf tries the owner
+    password first, so a file whose two passwords are both empty reports OWNER_PASSWORD) is extracted. -/
+theorem C08_pdf_password_types {C : Consts} (hC : PdfOk C = true) (p : String × Nat) (hp : p ∈ C.pdfPasswordTypes) :
+    pdfRejects C true (some p.2) = (p.1 == "NOT_DECRYPTED") := by
+  simp only [PdfOk, Bool.and_eq_true] at hC
+  have h1 := beq_iff_eq.mp (List.all_eq_true.mp hC.2 p hp)
+  have h2 := beq_iff_eq.mp (List.all_eq_true.mp hC.1.2 p hp)
+  simp only [pdfRejects, Bool.true_and, h1, h2]
+
+/-- the inventory is the one the theorems are meant for: three outcomes, owner and user among them -/
+theorem gen_pdf_outcomes :
+    ((K.pdfPasswordTypes.map (·.1)).contains "OWNER_PASSWORD" && (K.pdfPasswordTypes.map (·.1)).contains "USER_PASSWORD"
+      && K.pdfPasswordTypes.length == 3) = true := by decide
+
+example : PdfOutcome K (some 2) := Or.inr ⟨("OWNER_PASSWORD", 2), by decide, rfl⟩
+example : pdfRejects K true (some 1) = false ∧ pdfRejects K true (some 2) = false ∧ pdfRejects K true (some 0) = true
+    ∧ pdfRejects K true none = true ∧ pdfRejects K false none = false := by decide
+
+/-- the strict reading (the test is literally equivalent to `== 0` for EVERY natural number, decided on `0 … bound`
+    of the translated test and extended by `PdfTest.eval_stable`) -/
+def PdfStrict (C : Consts) : Bool :=
+  C.pdfPassword == [] && C.pdfExcRejects
+    && (List.range (C.pdfTest.bound + 1)).all (fun v => C.pdfTest.eval v == (v == 0))
+
+/-- … under which the statement holds for results of any size, not only pypdf's three.  (Not tied to the generated
+    constants: a spelling such as `not in (USER_PASSWORD, OWNER_PASSWORD)` is correct on every outcome but not strict.) -/
+theorem C08_pdf_all_results {C : Consts} (hC : PdfStrict C = true) (isEnc : Bool) (d : Option Nat) :
+    pdfRejects C isEnc d = true ↔ isEnc = true ∧ (d = none ∨ d = some 0) := by
+  simp only [PdfStrict, Bool.and_eq_true] at hC
+  have ht := PdfTest.eval_eq_isZero _ hC.2
+  cases d with
+  | none => simp [pdfRejects, hC.1.2]
+  | some n => simp [pdfRejects, ht n]
+
+example : PdfStrict { K with pdfTest := .eq 0 } = true ∧ PdfStrict { K with pdfTest := .lt 1 } = true
+    ∧ PdfStrict { K with pdfTest := .not .truthy } = true := by decide
+
+/-- why the owner outcome matters: a decision that lets only USER_PASSWORD through (`decrypt_result is not
+    PasswordType.USER_PASSWORD`, handler default NOT_DECRYPTED) fails `PdfOk` and rejects the PDF whose empty
+    password is reported as the owner password — although no password is needed to open it. -/
+theorem C08_pdf_user_only_counterexample :
+    PdfOk { K with pdfTest := .ne 1 } = false ∧ pdfRejects { K with pdfTest := .ne 1 } true (some 2) = true := by decide
+
+/-- `PdfOk` judges the meaning on pypdf's outcomes, not the spelling -/
+example : PdfOk { K with pdfTest := .not (.mem [1, 2]) } = true ∧ PdfStrict { K with pdfTest := .not (.mem [1, 2]) } = false
+    ∧ PdfOk { K with pdfTest := .and (.ne 1) (.ne 2) } = true ∧ PdfOk { K with pdfTest := .ge 2 } = false
+    ∧ PdfOk { K with pdfExcRejects := false } = false := by decide
 
 /-! ## 9. "Before any content is returned": the wrapper skeletons -/
 
